@@ -33,7 +33,7 @@ const helperEnv = "VERIF_C20_HELPER"
 type cleanCase struct {
 	Tree *cleanmodel.Node `json:"tree,omitempty"`
 	// Mode: "abs" (absolute path of the target), "rel" (cwd = parent of the target, relative path),
-	// "dot" (cwd = the target, path ".").
+	// "dot" (cwd = the target, path "."), "dotslash" (cwd = the target, path "./": report-only class, see checkClean).
 	Mode string `json:"mode"`
 	// Missing, when set, is a path below the parent directory that does not exist; Tree is ignored.
 	Missing string `json:"missing,omitempty"`
@@ -272,6 +272,8 @@ func executeLocal(c cleanCase) (obs observation) {
 			chdir, arg = parent, targetName
 		case "dot":
 			chdir, arg = target, "."
+		case "dotslash":
+			chdir, arg = target, "./"
 		default:
 			panic("C20 harness: unknown mode " + c.Mode)
 		}
